@@ -59,7 +59,7 @@ META = {
     },
     "C04": {
         "engine": "direct-speaker",
-        "text": "One real layer2Controller per node is fed the same generated / enumerated view; the set of announcers must be a singleton iff the oracle's eligible set is non-empty, the announcer must be eligible and be the sha256 argmin, and services sharing the address must elect the same node. Thorough tier enumerates the bounded 3-node space completely (16.7 M views) plus random 4-6 node views.",
+        "text": "One real layer2Controller per node is fed the same generated / enumerated view; the set of announcers must be a singleton iff the oracle's eligible set is non-empty, the announcer must be eligible and be the sha256 argmin, and services sharing the address must elect the same node. Thorough tier enumerates the bounded 3-node space completely (16.7 M views) plus random 4-6 node views. Second run (controller box): at every quiescent point Services whose statuses share an address must list the same first address, the key of the speakers' election. Third run (speaker box): the real speaker controller + layer-2 announcer under event histories; this node must hold a Service's addresses iff it is the eligible node with the smallest sha256(node#first address), eligibility computed from the resources.",
         "design_ref": "DESIGN.md 2/C04",
         "note": "The membership view is an input (memberlist is not run). Exhaustive only for the bounded space; quick tier samples it.",
         "technique": "runtime monitoring: eligibility/election oracle over decisions of the real controllers on enumerated views",
